@@ -1,4 +1,4 @@
-from harness import gens
+from harness import gens, scen
 from harness.props import rowgen
 
 
@@ -6,11 +6,15 @@ class C01(rowgen.RowGenProp):
     id = "C01"
     lean_module = "Wheatley.Props.C01"
     theorems = ["Wheatley.C01.permute_complete", "Wheatley.C01.start_row_complete",
-                "Wheatley.C01.gen_rows_complete", "Wheatley.C01.gen_rows_each_bell_once"]
+                "Wheatley.C01.gen_rows_complete", "Wheatley.C01.gen_rows_each_bell_once",
+                "Wheatley.C01.opening_extends_start_row", "Wheatley.C01.bot_row_complete",
+                "Wheatley.C01.bot_opening_and_rounds"]
     level_text = ("theorems: every row produced by permute / any generator / the Bot's padding is a permutation of "
                   "the start row (unbounded). correspondence: (stage, place set) pairs exhaustively to a stage bound "
                   "and sampled above, random generators with random call/reset histories; non-trivial = at least two "
-                  "rows produced without error; distinct by request hash")
+                  "rows produced without error; distinct by request hash. Bot level: sessions of the real Bot/Tower (stub "
+                  "rhythm) with towers larger than the stage, custom start rows shorter / equal / longer than the "
+                  "stage, Go / Bob / Single / That's all histories; oracle: every N consecutive strikes are the N bells")
 
     def cases(self, rng, tier):
         ex = 10 if tier == "quick" else 16
@@ -25,8 +29,94 @@ class C01(rowgen.RowGenProp):
             else:
                 spec = gens.rand_comp_spec(rng)
             yield rowgen.gen_case(rng, spec, rng.randint(2, 60), call_p=0.15, reset_p=0.03)
+        for i in range(40 if tier == "quick" else 600):
+            yield self.bot_session(rng)
+
+    def bot_session(self, rng):
+        """The rows the Bot rings (with cover bells) in a tower at least as big as the method."""
+        stage = rng.randint(3, 12)
+        N = min(16, stage + rng.choice([0, 1, 2, 2, 3, 4]))
+        r = rng.random()
+        if r < 0.6:
+            spec = gens.rand_pn_spec(rng, stage=stage, start_row_p=0.0)
+        else:
+            ty = rng.choice(["grandsire", "plainhunt", "stedman"])
+            if ty == "grandsire":
+                stage = max(stage, 5)
+            if ty == "stedman":
+                stage = max(5, stage | 1)
+            N = max(N, stage)
+            N = min(16, N)
+            stage = min(stage, N)
+            if ty == "stedman" and stage % 2 == 0:
+                stage -= 1
+            spec = {"type": ty, "stage": stage, "start_row": None}
+        if rng.random() < 0.6:
+            k = max(1, min(N, rng.choice([stage - 1, stage, stage + 1, stage + 2, N])))
+            bells = list(range(1, k + 1))
+            rng.shuffle(bells)
+            spec["start_row"] = "".join(gens.BELLS[b - 1] for b in bells)
+        w = 0.25
+        row_t = w * N + 0.01 * N
+        t0 = 1000.3 + rng.random()
+        udi = rng.random() < 0.4
+        events = [scen.call(t0, scen.LOOK_TO)]
+        go = t0 + rng.uniform(0.3, 2.5) * row_t
+        if not udi:
+            events.append(scen.call(go, scen.GO))
+        t = go
+        for _ in range(rng.randint(0, 6)):
+            t += rng.uniform(0.2, 3) * row_t
+            events.append(scen.call(t, rng.choice([scen.BOB, scen.SINGLE, scen.BOB])))
+        end = t + rng.uniform(2, 6) * row_t
+        if rng.random() < 0.5:
+            events.append(scen.call(end - rng.uniform(2.5, 3.5) * row_t, scen.THATS_ALL))
+        events.sort(key=lambda e: e[0])
+        sc = {"start": 1000.0, "end": end, "tower_size": N, "events": events,
+              "bot": scen.bot_cfg(spec, up_down_in=udi, stop_at_rounds=rng.random() < 0.3),
+              "rhythm": scen.stub_rhythm(w)}
+        return {"k": "world", "scenario": sc}
+
+    def agents(self, req):
+        return None
+
+    def impl(self, req):
+        if req["k"] == "world":
+            return scen.WorldProp.impl(self, req)
+        return super().impl(req)
+
+    def to_model(self, req):
+        if req["k"] == "world":
+            return scen.WorldProp.to_model(self, req)
+        return super().to_model(req)
+
+    def compare(self, req, ir, mr):
+        if req["k"] == "world":
+            return scen.WorldProp.compare(self, req, ir, mr)
+        return super().compare(req, ir, mr)
+
+    def tag(self, req, reply):
+        if req["k"] == "world":
+            g = req["scenario"]["bot"]["gen"]
+            sr = g.get("start_row")
+            rel = "none" if sr is None else ("short" if len(sr) < g["stage"] else "equal" if len(sr) == g["stage"] else "long")
+            return f"bot:start-{rel}:{'covers' if req['scenario']['tower_size'] > g['stage'] else 'nocovers'}"
+        return super().tag(req, reply)
+
+    def nontrivial(self, req, reply):
+        if req["k"] == "world":
+            return len(reply.get("strikes", [])) >= 3 * req["scenario"]["tower_size"]
+        return super().nontrivial(req, reply)
 
     def oracle(self, req, reply):
+        if req["k"] == "world":
+            if reply["crashed"] or reply["handler_crashes"]:
+                return f"crash: main={reply['crashed']} handlers={reply['handler_crashes']}"
+            N = req["scenario"]["tower_size"]
+            for i, r in enumerate(scen.rows_from_strikes(reply, N)):
+                if sorted(r) != list(range(1, N + 1)):
+                    return f"row {i} rung by the Bot = {r} is not each of the {N} tower bells exactly once"
+            return None
         return rowgen.oracle_complete(req, reply)
 
 
